@@ -44,10 +44,11 @@ functions on it and compares with what the REAL derived impls and the real crate
                `C04_root_refused`, evaluated), the zoo's flag `badroot` must say the same as `recordRoot`, and for a root
                with zero columns (`rootCols o t = some nil`: `C04_empty_root_loses_records`) the traced schema is `[]`.
 
-Every root kind is inside (tag `bridge:root:<kind>`); types outside the grammar of the theorems are tagged
-`bridge:outside-fragE:<reason>` (borrowed-target, serialize-deserialize-asymmetric, not-fragE) and counted; (a), (b) and the
-reader-model comparison of (c) still run on them (with the shipped target for borrowed positions); chain differences are tags
-there, not disagreements.
+Every root kind is inside (tag `bridge:root:<kind>`), and so are the BORROWED targets (`&'de str`, `#[serde(borrow)] Cow<str>`,
+`&'de [u8]` with and without serde_bytes: the leaves `Prim.strRef` / `cowStr` / `bytesRef` / `bytesSeq` of the type language;
+coverage tags `bridge:borrowed:<leaf>`, and `bridge:lend:<column type>` for the column types the crate lent from).  A type
+outside the grammar of the theorems would be tagged `bridge:outside-fragE:<reason>` (not-fragE; legacy descriptions with a
+target override: borrowed-target / serialize-deserialize-asymmetric) and counted — no zoo type is.
 -/
 namespace Driver.RoundtripBridge
 open Lean Driver SaModel SaModel.Roundtrip
@@ -76,6 +77,37 @@ def rootKind (t : Ty) : String :=
     | _ => "newtype-of-tuple"
   | _ => "refused"
 
+mutual
+/-- the borrowed leaves of a type (coverage tags) -/
+partial def borrowedLeaves : Ty → List String
+  | .prim .strRef => ["str_ref"] | .prim .cowStr => ["cow_str"] | .prim .bytesRef => ["bytes_ref"] | .prim .bytesSeq => ["bytes_seq"]
+  | .prim _ | .unit | .unitStruct _ => []
+  | .option t | .vec t | .newtype _ t => borrowedLeaves t
+  | .tuple ts | .tupleStruct _ ts => borrowedTys ts
+  | .struct _ fs => borrowedFields fs
+  | .map k v => (borrowedLeaves k ++ borrowedLeaves v).eraseDups
+  | .enum _ vs => borrowedVariants vs
+partial def borrowedTys : Tys → List String
+  | .nil => []
+  | .cons t r => (borrowedLeaves t ++ borrowedTys r).eraseDups
+partial def borrowedFields : TFields → List String
+  | .nil => []
+  | .cons _ _ t r => (borrowedLeaves t ++ borrowedFields r).eraseDups
+partial def borrowedVariants : Variants → List String
+  | .nil => []
+  | .cons _ .unit r => borrowedVariants r
+  | .cons _ (.newtype t) r => (borrowedLeaves t ++ borrowedVariants r).eraseDups
+  | .cons _ (.tuple ts) r => (borrowedTys ts ++ borrowedVariants r).eraseDups
+  | .cons _ (.struct fs) r => (borrowedFields fs ++ borrowedVariants r).eraseDups
+end
+
+/-- the column types the borrowed leaves of `t` are traced to under `o` (what the crate has to lend from) -/
+def lendColumns (o : TraceOpts) (t : Ty) : List String :=
+  let ls := borrowedLeaves t
+  let strCol := (if o.stringDictionaryEncoding then "Dictionary-" else "") ++ (if o.stringsAsLargeUtf8 then "LargeUtf8" else "Utf8")
+  (if ls.contains "str_ref" || ls.contains "cow_str" then [strCol] else []) ++
+  (if ls.contains "bytes_ref" || ls.contains "bytes_seq" then ["LargeBinary"] else [])
+
 def firstIdx {α} (l : List α) (p : α → Bool) : Option Nat :=
   (l.zipIdx.find? fun (x, _) => p x).map (·.2)
 
@@ -103,7 +135,10 @@ def check (j : Json) (opts : TraceOpts) (rows : List SVal) (fields : List Field)
   let inside := outside.isNone
   let borrowed := hasTargetOverride desc
   let mut tags : List String := [match outside with | none => "bridge:inside-fragE" | some r => s!"bridge:outside-fragE:{r}",
-    s!"bridge:root:{rootKind tD}"]
+    s!"bridge:root:{rootKind tD}"] ++ (borrowedLeaves t).map (s!"bridge:borrowed:{·}")
+  -- `C04_lend` evaluated: every column a borrowed leaf is traced to is one the reader lends from
+  if inside && !(borrowedLeaves t).isEmpty then
+    tags := tags ++ (lendColumns opts t).map (s!"bridge:lend:{·}")
   -- ---- the root kind: the flag the zoo declares is the model's `recordRoot`
   if badroot != !recordRoot tD then
     return { tags, bad := some ("root-kind", s!"the zoo declares the root {if badroot then "refused" else "supported"}, `recordRoot` of its description is {recordRoot tD}") }
